@@ -529,3 +529,38 @@ def l_r4_list_elements(p: Project, rep: Report):
                     rep.note(f"L-R4 undecided: member text is {text(v)[:60]}")
     if seen:
         rep.check("L-R4", "ElementList._listAppend:text-through-converter", bad is None, f"on a path (taken when {bad[1]}) the member is written as `{bad[0]}` without passing the converter: an invalid value put into the list after construction is written instead of refused" if bad else "", f"{p.module(BASE_).relpath}:{fn0.lineno}")
+
+
+def l_r2b_every_handwritten_producer_escapes(p: Project, rep: Report, rule: str = "L-R2"):
+    """whoever writes markup by hand escapes the data"""
+    rep.rule(rule, "every function of ofxtools.utils that composes markup text by hand - an f-string / str.format template with '<' ... '>' in its literal parts - writes an element's text only through saxutils.escape (or html.escape / a replace chain that the main clause recognises): a producer that serves BOTH wire forms and escapes in one branch only (`<TAG>text</TAG>` raw for the closed version-1 form, escaped for the unclosed one) puts `&` and `<` of a password or memo on the wire raw")
+    m = p.module("ofxtools.utils")
+    n = 0
+    for qn, cls, fn in m.functions():
+        ex = Expander(fn)
+        # names that hold an element's text
+        texts = set()
+        for st in ast.walk(fn):
+            if isinstance(st, ast.Assign):
+                tgts = st.targets[0].elts if len(st.targets) == 1 and isinstance(st.targets[0], ast.Tuple) else st.targets
+                vals = st.value.elts if isinstance(st.value, ast.Tuple) and len(st.targets) == 1 and isinstance(st.targets[0], ast.Tuple) and len(st.value.elts) == len(st.targets[0].elts) else [st.value] * len(tgts)
+                for t_, v_ in zip(tgts, vals):
+                    if isinstance(t_, ast.Name) and ".text" in text(v_) and "escape(" not in text(v_):
+                        texts.add(t_.id)
+        for x in ast.walk(fn):
+            parts = None
+            if isinstance(x, ast.JoinedStr):
+                lit = "".join(str(v.value) for v in x.values if isinstance(v, ast.Constant))
+                parts = [v.value for v in x.values if isinstance(v, ast.FormattedValue)] if "<" in lit and ">" in lit else None
+            elif isinstance(x, ast.Call) and isinstance(x.func, ast.Attribute) and x.func.attr == "format" and isinstance(x.func.value, ast.Constant) and isinstance(x.func.value.value, str) and "<" in x.func.value.value and ">" in x.func.value.value:
+                parts = list(x.args) + [k.value for k in x.keywords]
+            if not parts:
+                continue
+            for v in parts:
+                tv = text(v)
+                raw = (isinstance(v, ast.Name) and v.id in texts) or (".text" in tv and "escape(" not in tv)
+                if not raw:
+                    continue
+                n += 1
+                rep.check(rule, f"{qn}:template:{tv[:30]}:escaped", False, f"{qn} writes `{tv[:40]}` - an element's text - into hand-written markup without escaping it: `&` and `<` in the data reach the wire raw on this branch (the closed version-1 form, say), so the receiver reads entity references / tags the sender never meant", f"{m.relpath}:{x.lineno}")
+    rep.check(rule, "utils:hand-written-markup-escapes-text", True, "", f"{n} raw text interpolations")
